@@ -405,8 +405,8 @@ impl Property for C12 {
     fn params(&self, tier: Tier) -> Params {
         Params {
             cases: match tier {
-                Tier::Quick => 20_000,
-                Tier::Thorough => 400_000,
+                Tier::Quick => 60_000,
+                Tier::Thorough => 3_000_000,
             },
             max_bytes: 256,
             timeout: Duration::from_secs(120),
